@@ -1,9 +1,5 @@
 package xpath
 
-import (
-	"strconv"
-)
-
 // The XPath number operator function list.
 
 type logical func(iterator, string, interface{}, interface{}) bool
@@ -72,11 +68,7 @@ func cmpNumericNumeric(t iterator, op string, m, n interface{}) bool {
 func cmpNumericString(t iterator, op string, m, n interface{}) bool {
 	a := m.(float64)
 	b := n.(string)
-	num, err := strconv.ParseFloat(b, 64)
-	if err != nil {
-		panic(err)
-	}
-	return cmpNumberNumberF(op, a, num)
+	return cmpNumberNumberF(op, a, stringToNumber(b))
 }
 
 func cmpNumericNodeSet(t iterator, op string, m, n interface{}) bool {
@@ -88,11 +80,7 @@ func cmpNumericNodeSet(t iterator, op string, m, n interface{}) bool {
 		if node == nil {
 			break
 		}
-		num, err := strconv.ParseFloat(node.Value(), 64)
-		if err != nil {
-			panic(err)
-		}
-		if cmpNumberNumberF(op, a, num) {
+		if cmpNumberNumberF(op, a, stringToNumber(node.Value())) {
 			return true
 		}
 	}
@@ -107,11 +95,7 @@ func cmpNodeSetNumeric(t iterator, op string, m, n interface{}) bool {
 		if node == nil {
 			break
 		}
-		num, err := strconv.ParseFloat(node.Value(), 64)
-		if err != nil {
-			panic(err)
-		}
-		if cmpNumberNumberF(op, num, b) {
+		if cmpNumberNumberF(op, stringToNumber(node.Value()), b) {
 			return true
 		}
 	}
@@ -163,11 +147,7 @@ func cmpNodeSetNodeSet(t iterator, op string, m, n interface{}) bool {
 func cmpStringNumeric(t iterator, op string, m, n interface{}) bool {
 	a := m.(string)
 	b := n.(float64)
-	num, err := strconv.ParseFloat(a, 64)
-	if err != nil {
-		panic(err)
-	}
-	return cmpNumberNumberF(op, b, num)
+	return cmpNumberNumberF(op, b, stringToNumber(a))
 }
 
 func cmpStringString(t iterator, op string, m, n interface{}) bool {
